@@ -14,6 +14,18 @@ COMMON_NOTE = (
 )
 TECH = "symbolic execution of the real Python on z3-backed proxy scalars (decision-tree re-execution), exact parametric-LP stub, SMT (QF_LRA) obligations per path, counterexamples replayed on the unshimmed code"
 CHECKS = {
+    "C05": {
+        "text": "The real iocontract.py (IoContract constructor, compose_tactics, quotient_tactics, merge, TermList set operations, lists.py) is executed over an abstract constraint domain: terms are uninterpreted predicates (z3 Bools at one arbitrary behaviour), and every primitive (refine/relax elimination, simplify, refines) is a nondeterministic stub constrained only by its documented contract. All primitive outcomes (ValueError, leftovers, fresh results, drops, refines True/False) are solver-decided forks; on every returning path the propositional form of C01/C02/C08 is one SAT query. Validity at an arbitrary behaviour is validity because all contracts and obligations are pointwise implications.",
+        "design_ref": "DESIGN.md section 8 C05",
+        "note": "Bounded: interface topologies over 3 variables (thorough: all 120 multisets, and a sample over 4), <=2 terms per list, one optional term shared by both operands. Trusted: z3; that the stub contracts in pv/abstract.py state the documented primitive specifications (they are quoted from TermList's docstrings). No LP, sympy or float shim is involved. Counterexamples are replayed by re-running the recorded decision sequence with concrete truth values on the unshimmed iocontract.py.",
+        "technique": "symbolic execution of the real algebra layer over an abstract domain (uninterpreted predicates as z3 Bools, nondeterministic primitive stubs, decision-tree re-execution), propositional SMT obligation per path",
+    },
+    "C06": {
+        "text": "Same abstract execution of the real iocontract.py, bounded-exhaustive over interface topologies (every multiset of role pairs over 3 variables, thorough also 4; sampled beyond), with vars_to_keep / additional_inputs as symbolic subsets of all variables so that illegal requests are generated, obedient primitives on every topology and adversarial ones on the 3-variable family. Each path is compared with a reference model of the prescribed interface algebra written from the property text: returned contracts well formed, interface as prescribed, IncompatibleArgsError exactly for meaningless requests (and, adversarially, when a primitive left forbidden variables); constructor faults, rename, copy and refines across interfaces are covered by single-contract jobs.",
+        "design_ref": "DESIGN.md section 8 C06",
+        "note": "For this property the solver's role is path pruning and the quantification over primitive outcomes and request subsets; the interface comparison on each path is a concrete set comparison against the reference model in pv/topo.py. Trusted: that reference model (30 lines, from the property text).",
+        "technique": "bounded-exhaustive symbolic execution of the real algebra layer over an abstract domain (z3-decided forks over requests and primitive outcomes), differential comparison with a reference interface model per path",
+    },
     "C10": {
         "text": "Symbolic execution of to_machine_dict/from_dict, to_dict/from_strings, write/read_contracts_to_file, the whole printer (_lhs_str, _number_to_string, opposite-term folding with np.isclose) and then the real parser on the printer's output, with up to 3 (thorough 5) numbers symbolic (constants, one coefficient) constrained to the property's domain. format(v,'.4g') is modelled numerically (Int mantissa, LIRA); printed numerals are placeholders mapped back to the rounded values. Machine dict: equal and hash-equal, constants provably identical. File/string forms: same interface; meaning of the read-back contract equals the reference reading of what was printed (4 significant digits; first term of a folded pair governs both halves), tolerant both ways; folds only for opposite terms; every printed string accepted. A concrete mode exercises real formatting (exponent notation) and lexing.",
         "design_ref": "DESIGN.md section 8 C10",
